@@ -240,6 +240,12 @@ def destinationCluster (c : Ctx) (d : Destination) : String :=
   if d.host.isEmpty then "UnknownService" else
   subsetKey d.subset (destHost (c.lookupService d.host) d) (destPort c (c.lookupService d.host) d)
 
+/-- `BuildSidecarOutboundVirtualHosts` hands the route compiler a registry restricted to the listener
+    port (`servicesByName`): a service is visible only if it exposes that port, and then with that
+    single port.  This is the lookup result the compiler sees for a service `svc` of the mesh. -/
+def filteredView (port : Nat) (svc : Option Service) : Option Service :=
+  svc.bind (fun s => if s.ports.contains port then some { s with ports := [port] } else none)
+
 /-- Cluster specifier built by `applyHTTPRouteDestination`: one destination collapses to `cluster`
     (its weight is ignored); otherwise zero-weight destinations are dropped. -/
 def routeAction (c : Ctx) (ds : List RouteDest) : Action :=
